@@ -40,6 +40,31 @@ CHECKS: dict[str, tuple[str, str, str, str, str]] = {
             "readiness outcome. Held = held on the enumerated faults.",
             "runtime monitoring with fault injection: enumerated single-frame corruptions judged by prefix/closed/error-class oracle",
             "DESIGN.md §4 C04"),
+    "C05": ("S", "fault_enumeration",
+            "Online transition monitor (descriptor on APIConnection.connection_state logs every write with its predecessor) over the real "
+            "library on a stepped asyncio loop: every close cause x every injection point (loop iteration x ready-queue index / zero-delay timer / "
+            "before-select network event / mid-wait instant) of 11 (quick) lifecycle baselines, closing bytes in the phase-completing chunk, "
+            "sampled fault pairs, plus reuse probes and is_connected == (state is CONNECTED) at every iteration boundary.",
+            "runtime monitoring: online state-transition checker on hooked slot writes under enumerated fault x loop-step injection",
+            "DESIGN.md §4 C05"),
+    "C07": ("S", "fault_enumeration",
+            "Per-connection on_stop counter (wrapper installed at APIConnection construction) + graceful-initiation event log, judged by an "
+            "exactly-once / right-argument oracle over the same fault x injection-point enumeration plus ordered pairs of close causes.",
+            "runtime monitoring: exactly-once counter + event-order oracle under enumerated single and paired close causes",
+            "DESIGN.md §4 C07"),
+    "C08": ("S", "fault_enumeration",
+            "Resource auditor run at the first end-of-instant after every CLOSED write and at scenario end (live TimerHandles, pending tasks and "
+            "calls, unclosed FakeSockets/transports, bytes accepted by the socket after close, subscriber invocations after close) over the "
+            "fault x injection-point enumeration incl. steady-state baselines and 'closing frame + trailing frames in one chunk'.",
+            "runtime monitoring: quiescent-point resource audit (timer heap, task set, sockets, post-close writes/deliveries) at injected crash points",
+            "DESIGN.md §4 C08"),
+    "C09": ("S", "fault_enumeration",
+            "Call recorder in virtual time + fatal-cause recorder: every awaited call must return within its documented bound (none pending at the "
+            "400 s horizon or when the world is idle forever), raise only APIConnectionError subclasses (CancelledError only when the harness "
+            "cancelled that task), and carry the first fatal cause; faults incl. resolver/TCP errors and hangs, at every injection point, singly "
+            "and in pairs.",
+            "runtime monitoring: virtual-time call recorder with bound table, error-class check, first-cause oracle and deadlock detector",
+            "DESIGN.md §4 C09"),
 }
 
 NOT_YET = {
